@@ -64,6 +64,9 @@ func stdUniverse() *universe {
 			// leaves used by the reference burst of profile throttle (never picked at random)
 			{name: "c.n", kind: 'c'}, {name: "m.n1", kind: 'm'}, {name: "m.n2", kind: 'm'},
 			{name: "m.l1", kind: 'm'}, {name: "m.l2", kind: 'm'}, {name: "m.l3", kind: 'm'}, {name: "m.l4", kind: 'm'}, {name: "m.l5", kind: 'm'}, {name: "m.l6", kind: 'm'}, {name: "m.l7", kind: 'm'}, {name: "m.l8", kind: 'm'},
+			// a property name with a control character, next to a soft reference and a data value
+			// (what a legacy client's encoder has to quote): only the scripted legacy run asks for it
+			{name: "m.k", kind: 'm'},
 		},
 		norm: map[string]string{"q=a": "q=n1", "q=b": "q=n1", "q=c": "q=n2", "q=n1": "q=n1", "q=n2": "q=n2"},
 		init: map[string]string{
@@ -72,7 +75,7 @@ func stdUniverse() *universe {
 			"m.r2e": "k1=r:m.err,k2=p4", "q.m?q=n1": "k1=p1", "q.m?q=n2": "k1=p2,k2=r:m.b", "q.c?q=n1": "p1,p2",
 			"q.c?q=n2": "p3", "q.d?q=n1": "k1=p4,k2=r:m.b", "q.d?q=n2": "k1=p5", "cid.{cid}.m": "k1=p9", long: "k1=p1", "m.pq": "k1=p1,k2=r:m.b",
 			"c.n": "p1", "m.n1": "k1=r:m.l1,k2=p1", "m.n2": "k1=r:m.l2,k2=r:m.l3",
-			"m.l1": "k1=p1", "m.l2": "k1=p2", "m.l3": "k1=p3", "m.l4": "k1=p4", "m.l5": "k1=p5", "m.l6": "k1=p6", "m.l7": "k1=p7", "m.l8": "k1=p8",
+			"m.l1": "k1=p1", "m.l2": "k1=p2", "m.l3": "k1=p3", "m.l4": "k1=p4", "m.l5": "k1=p5", "m.l6": "k1=p6", "m.l7": "k1=p7", "m.l8": "k1=p8", "m.k": "a\x01b=p1,k2=s:m.b,k3=d3",
 		},
 	}
 	u.rids = []string{"m.a", "m.b", "m.c", "m.self", "c.a", "c.b", "m.err", "m.r2e", "q.m?q=a", "q.m?q=b", "q.m?q=c",
@@ -304,7 +307,7 @@ func (g *gen) clientRequest() {
 		case 1:
 			rid = "m.pq"
 		default:
-			rid = "m.pq?o={cid}"
+			rid = "m.pq?o={cid}&v={cid}" // every tag is expanded, not just the first
 		}
 	}
 	g.kinds["req:"+kind]++
@@ -332,6 +335,12 @@ func (g *gen) clientRequest() {
 			params = `{"count":1}`
 		case 6:
 			params = `{"count":300}`
+		case 7:
+			params = `{}` // no count: defaults to 1
+		case 8:
+			params = `{"count":null}`
+		case 9:
+			params = pick(g.r, []string{`{"other":true}`, `{"count":1.5}`, `[1]`, `{"count":true}`})
 		}
 		// prefer rids the client holds
 		if g.r.chance(3, 4) {
@@ -1259,6 +1268,36 @@ func (g *gen) leaverRun() {
 	g.drain()
 }
 
+// legacyRun: a client that never sent a version request (protocol 1.1.1 encodings) holds a
+// collection and a model: add events carrying a soft reference and a data value reach it exactly
+// once each (C03), in the legacy encoding (C01), and a model whose property name needs JSON
+// quoting is delivered in a response carrying the request's id (C07).
+func (g *gen) legacyRun() {
+	w := g.w
+	c := w.connect()
+	if c == nil {
+		return
+	}
+	g.kinds["legacy-run"]++
+	w.request(c, "subscribe.c.n", "")
+	w.request(c, "subscribe.m.k", "")
+	g.drain()
+	trc := w.truth.get("c.n", "")
+	if trc == nil || trc.deleted || w.stall != "" {
+		return
+	}
+	for _, v := range []aval{"s:m.b", "d4"} {
+		idx := g.r.intn(len(trc.coll) + 1)
+		nc := append([]aval{}, trc.coll[:idx]...)
+		nc = append(nc, v)
+		trc.coll = append(nc, trc.coll[idx:]...)
+		w.publish("event.c.n.add", fmt.Sprintf(`{"idx":%d,"value":%s}`, idx, v.json()))
+		trc.seq++
+		w.publish("event.c.n.x", fmt.Sprintf(`{"seq":%d}`, trc.seq))
+	}
+	g.drain()
+}
+
 // resetBurstRun: one cached resource name, but more governed requests than the reset throttle
 // allows at once (an access re-validation per subscribing connection, then a re-fetch per query
 // variant): never more than `limit` of them may be outstanding (C19), and all must be issued.
@@ -1490,6 +1529,9 @@ func runHistory(p profile, seed uint64, index int, keepSteps bool, wantSnap bool
 	}
 	if p.name == "order" && r.chance(1, 5) {
 		g.orderRun()
+	}
+	if (p.name == "refs" || p.name == "mixed") && r.chance(1, 5) {
+		g.legacyRun()
 	}
 	if p.name == "churn" && r.chance(1, 6) {
 		g.deleteRun()
